@@ -275,8 +275,11 @@ def gen_case(rng, prop='C13'):
     n0 = rng.choice([0, 1, 3])
     big = 'B' * 9000
     keyspace = ['k0', 'k1', 'k2', 'k3', 'k4']
-    if b['kind'] == 'dir' and b.get('serialized', True) and b.get('protocol') != 'json' and rng.random() < 0.4:
-        keyspace = ['k0', 'k1', {'__t__': [1, 'x']}, 7, 'k4']     # keys that need a stored input file
+    if b['kind'] == 'dir' and b.get('serialized', True) and rng.random() < 0.6:
+        # keys that need a stored input file (non-string keys; strings the directory name cannot spell), in any position
+        keyspace = ['k0', 'k-1', 'k4', 'k-3', 'k2'] if b.get('protocol') == 'json' else \
+            ['k0', 'k-1', {'__t__': [1, 'x']}, 7, 'k4']
+        rng.shuffle(keyspace)
     s0 = []
     for i in range(n0):
         s0.append([keyspace[i], rng.choice([100 + i, 'v%d' % i, big + str(i)])])
